@@ -318,7 +318,55 @@ def reader_sources():
     return out
 
 
+def boundary_worker(case):
+    """identifiers at the documented length limits (255 characters, 256 with a leading &), in every scope of an
+    EDIF-policy netlist: accepted exactly when legal; a legal one is found by lookup and blocks its case variant."""
+    _, kind, order = case
+    core.reset_world()
+    core.set_order(order)
+    s = core.sdn()
+    s.namespace_manager.default = "EDIF"
+    n = s.Netlist(name="n")
+    lib = n.create_library(name="l")
+    d = lib.create_definition(name="d")
+    make = {"L": lambda: n.create_library(), "D": lambda: lib.create_definition(), "P": lambda: d.create_port(),
+            "C": lambda: d.create_cable(), "X": lambda: d.create_child()}[kind]
+    parent, getter = {"L": (n, "get_libraries"), "D": (lib, "get_definitions"), "P": (d, "get_ports"),
+                      "C": (d, "get_cables"), "X": (d, "get_instances")}[kind]
+    probs = []
+    nq = 0
+    for ident in ("x" * 255, "x" * 256, "&" + "x" * 255, "&" + "x" * 256, "&", "x", "&" + "1" * 254, "X" * 254 + "y"):
+        legal = bool(_LEGAL.match(ident))
+        el = make()
+        nq += 1
+        try:
+            el["EDIF.identifier"] = ident
+            accepted = True
+        except ValueError:
+            accepted = False
+        what = "%s%d%s" % ("&" if ident.startswith("&") else "", len(ident), "" if legal else ":illegal")
+        if accepted != legal:
+            probs.append(("%s:boundary:%s:%s" % ("refused-without-cause" if legal else "conflicting-edit-accepted", kind, what),
+                          "identifier of %d characters%s" % (len(ident), " starting with &" if ident.startswith("&") else "")))
+            continue
+        if legal:
+            got = list(getattr(parent, getter)(ident.swapcase(), key="EDIF.identifier"))
+            if [id(x) for x in got] != [id(el)]:
+                probs.append(("lookup-missing:boundary:%s:%s" % (kind, what), "%d found" % len(got)))
+            twin = make()
+            try:
+                twin["EDIF.identifier"] = ident.swapcase()
+                probs.append(("conflicting-edit-accepted:boundary-case-variant:%s:%s" % (kind, what), ""))
+            except ValueError:
+                pass
+            # free the identifier again for the next round (the upper-case one of 255 would clash otherwise)
+            del el["EDIF.identifier"]
+    return {"key": core.digest(case), "nontrivial": True, "outcome": "ok", "problems": probs, "transitions": nq}
+
+
 def reader_worker(case):
+    if case[0] == "boundary":
+        return boundary_worker(case)
     """exact lookups against a scan, from every parent of a reader-built netlist and of its clone, for every name and
     identifier present (and their case variants); then one element of every scope is renamed and asked again."""
     from vlib import fdesigns, edif_writer, verilog_writer as vw, eblif_writer as ew
@@ -373,7 +421,26 @@ def reader_worker(case):
                             if f in seen:
                                 probs.append(("duplicate-%s:%s:%s" % (key, lst, origin), "%r twice" % (c[key],)))
                             seen[f] = c
+    def from_above(phase):
+        # definitions by exact name from the netlist and from the list of its libraries (both orders): a cell name is
+        # unique per library only; ports / cables / instances by name from the netlist: every definition's
+        nonlocal nq
+        libs = list(n.libraries)
+        for root, rname in ((n, "netlist"), (libs, "libraries"), (list(reversed(libs)), "libraries-reversed")):
+            for getter, kids in (("get_definitions", [dd for l in libs for dd in l.definitions]),
+                                 ("get_ports", [x for l in libs for dd in l.definitions for x in dd.ports]),
+                                 ("get_cables", [x for l in libs for dd in l.definitions for x in dd.cables]),
+                                 ("get_instances", [x for l in libs for dd in l.definitions for x in dd.children])):
+                for v in sorted(set(k.name for k in kids if isinstance(k.name, str) and not any(ch in k.name for ch in "*?["))):
+                    want = sorted(id(k) for k in kids if k.name == v)
+                    nq += 1
+                    got = sorted(id(x) for x in getattr(s_, getter)(root, v))
+                    if got != want:
+                        probs.append(("lookup-from-above-differs:%s:from-%s:%s%s" % (getter, rname, origin, phase),
+                                      "%s(%s, %r): %d element(s), a scan over all libraries finds %d" % (getter, rname, v, len(got), len(want))))
+    s_ = core.sdn()
     judge("")
+    from_above("")
     # a rename in every scope (to a fresh name), then again
     for l in n.libraries:
         for d in l.definitions:
@@ -383,6 +450,7 @@ def reader_worker(case):
                         c.name = c.name + "_renamed"
             break
     judge(":after-renames")
+    from_above(":after-renames")
     return {"key": core.digest(case), "nontrivial": True, "outcome": "ok", "problems": list(dict.fromkeys(probs)), "transitions": nq}
 
 
@@ -392,7 +460,7 @@ engine_b.WORKERS[ID] = reader_worker
 
 def reader_cases():
     return [("reader", fmt, which, opt, cloned, order) for fmt, which, opt in reader_sources() for cloned in (False, True)
-            for order in core.ORDER_VARIANTS]
+            for order in core.ORDER_VARIANTS] + [("boundary", kind, "asc") for kind in "LDPCX"]
 
 
 def replay(case):
